@@ -204,12 +204,17 @@ inductive Sub (st : StructTable) : Ty → Ty → Prop
       (∀ p' ∈ ps', (fieldTy st t.base p'.name).isSome) →
       (∀ p' ∈ ps', Sub st ((fieldTy st t.base p'.name).getD badTy) p'.ty) →
       Sub st t t'
+  /-- two non-struct types of the same shape (int → float, string → file, …): narrowing is
+  the identity at both -/
+  | scalar (t t' : Ty) : t.mapDim = t'.mapDim → t.arrDim = t'.arrDim →
+      st.lookup t.base = none → st.lookup t'.base = none → Sub st t t'
 
 theorem Sub.dims {st : StructTable} {t t' : Ty} (h : Sub st t t') :
     t.mapDim = t'.mapDim ∧ t.arrDim = t'.arrDim := by
   cases h with
   | refl => exact ⟨rfl, rfl⟩
   | struct _ _ _ _ h1 h2 => exact ⟨h1, h2⟩
+  | scalar _ _ h1 h2 => exact ⟨h1, h2⟩
 
 /-- assignability does not depend on the array / map nesting around the base type -/
 theorem Sub.redim {st : StructTable} {t t' : Ty} (h : Sub st t t') (m a : Nat) :
@@ -217,6 +222,7 @@ theorem Sub.redim {st : StructTable} {t t' : Ty} (h : Sub st t t') (m a : Nat) :
   cases h with
   | refl => exact Sub.refl _
   | struct _ _ ps ps' _ _ h3 h4 h5 h6 => exact Sub.struct _ _ ps ps' rfl rfl h3 h4 h5 h6
+  | scalar _ _ _ _ h3 h4 => exact Sub.scalar _ _ rfl rfl h3 h4
 
 theorem find_name_of_nodup (ps : List Param) (hn : (ps.map (·.name)).Nodup) (p : Param) (hp : p ∈ ps) :
     ps.find? (fun q => q.name == p.name) = some p := by
@@ -288,6 +294,7 @@ theorem Sub.members {st : StructTable} (hst : StructsOk st) {t t' : Ty} (h : Sub
       refine ⟨p, hpm, hpn, hfind, ?_⟩
       rw [hf] at hsub
       simpa [hpt] using hsub
+  | scalar _ _ _ _ _ h4 => rw [hl'] at h4; cases h4
 
 theorem field_map_find (ps : List Param) (g : Param → J) (k : String) (p : Param)
     (h : ps.find? (fun q => q.name == k) = some p) :
@@ -353,6 +360,18 @@ theorem narrow_narrow {st : StructTable} (hst : StructsOk st) {F : Nat} (hF : Na
     | dnull => rfl
     | atom a => rfl
     | arr xs => rfl
+  | scalar t t' h1 h2 h3 h4 =>
+    intro v
+    rw [hF t' (narrow st F t v), hF t v, hF t' v]
+    have e : ∀ (g : J → J) (w : J), atBase t' g w = atBase t g w := by
+      intro g w
+      simp [atBase, h1, h2]
+    rw [e, e, atBase_comp]
+    apply atBase_congr
+    intro s
+    simp only [Function.comp_apply]
+    unfold narrowBase
+    rw [h3, h4]
 
 theorem Sub.trans {st : StructTable} (hst : StructsOk st) {a b c : Ty} (h1 : Sub st a b) (h2 : Sub st b c) :
     Sub st a c := by
@@ -387,6 +406,11 @@ theorem Sub.trans {st : StructTable} (hst : StructsOk st) {a b c : Ty} (h1 : Sub
         rw [hqn, hpn] at hfa
         have := ih p' hp' (a := q.ty) (by rw [hf]; simpa [hpt] using hsub)
         simpa [hfa] using this
+  | scalar t t' d1 d2 l1 l2 =>
+    cases h1 with
+    | refl => exact Sub.scalar _ _ d1 d2 l1 l2
+    | struct _ _ ps ps' _ _ _ h4 => rw [l1] at h4; cases h4
+    | scalar _ _ e1 e2 l0 _ => exact Sub.scalar _ _ (e1.trans d1) (e2.trans d2) l0 l2
 
 /-! ## projection and narrowing commute -/
 
